@@ -127,12 +127,14 @@ STAT_RE = re.compile(r'^(\d+) states generated, (\d+) distinct states found')
 STR_RE = re.compile(r'"((?:[^"\\]|\\.)*)"')
 
 
-def tlc_trace(trace_path, workdir, cfg="Trace.cfg", module="Trace.tla", timeout=1800, xmx="3g"):
+def tlc_trace(trace_path, workdir, cfg="Trace.cfg", module="Trace.tla", timeout=1800, xmx="3g", env_extra=None):
     os.makedirs(workdir, exist_ok=True)
     jt = os.path.join(workdir, "jt")
     os.makedirs(jt, exist_ok=True)
     env = dict(os.environ, TRACE=trace_path,
                JAVA_TOOL_OPTIONS="-Xss1g -Xmx%s -Dtlc2.tool.queue.IStateQueue=StateDeque -Djava.io.tmpdir=%s" % (xmx, jt))
+    if env_extra:
+        env.update(env_extra)
     cmd = ["timeout", str(timeout), "tlc", "-workers", "1", "-metadir", os.path.join(workdir, "md"), "-cleanup",
            "-noGenerateSpecTE", "-config", cfg, module]
     r = sh(cmd, cwd=SPEC, env=env, stdout=subprocess.PIPE, stderr=subprocess.STDOUT, text=True)
@@ -192,7 +194,7 @@ def split_trace(trace_path, nshards, workdir):
     return paths
 
 
-def validate(trace_path, workdir, nshards=None):
+def validate(trace_path, workdir, nshards=None, env_extra=None):
     """TLC trace validation, sharded; returns findings with the session ops that reproduce them"""
     nshards = nshards or max(1, min(NCPU - 2, 12))
     size = os.path.getsize(trace_path)
@@ -203,7 +205,7 @@ def validate(trace_path, workdir, nshards=None):
     paths = split_trace(trace_path, nshards, workdir)
     res = []
     with cf.ThreadPoolExecutor(max_workers=len(paths)) as ex:
-        futs = [ex.submit(tlc_trace, p, os.path.join(workdir, "tlc-%d" % i)) for i, p in enumerate(paths)]
+        futs = [ex.submit(tlc_trace, p, os.path.join(workdir, "tlc-%d" % i), env_extra=env_extra) for i, p in enumerate(paths)]
         for p, fu in zip(paths, futs):
             r = fu.result()
             r["shard"] = p
@@ -242,7 +244,9 @@ def session_ops(lines, upto):
             ops.append({"op": "call", "p": ev["p"], "buf": ev["buf"]})
         elif e == "flat":
             ops.append({"op": "flat", "p": ev["p"], "buf": ev["buf"]})
-        elif e in ("round", "note"):
+        elif e in ("parsed", "ret", "retbig", "toolcrash", "panic", "crash", "hang", "flatret", "struct"):
+            continue
+        elif e in ("round", "note") and i < upto - 1 or e == "round":
             o = dict(ev)
             o["op"] = e
             del o["e"]
@@ -339,9 +343,17 @@ def read_vectors(path, limit=None, seed=1):
             except Exception:
                 continue
     if limit is not None and len(vecs) > limit:
-        short = [v for v in vecs if sum(1 for o in v if o["op"] == "call") <= 1]
-        long_ = [v for v in vecs if sum(1 for o in v if o["op"] == "call") > 1]
+        # keep the core first: single-parser histories under the default allowed set, shortest first;
+        # fill the rest of the budget with a seeded random sample of the cross-parser / filtered ones
         rnd = random.Random(seed)
-        rnd.shuffle(long_)
-        vecs = short[:limit] + long_[:max(0, limit - len(short))]
+
+        def rank(v):
+            return (len({o["p"] for o in v}) > 1, sum(1 for o in v if o["op"] == "allow"))
+        core = [v for v in vecs if rank(v) == (False, 0)]
+        rest = [v for v in vecs if rank(v) != (False, 0)]
+        rnd.shuffle(rest)
+        if len(core) > limit * 3 // 4:
+            rnd.shuffle(core)
+            core = core[:limit * 3 // 4]
+        vecs = core + rest[:max(0, limit - len(core))]
     return vecs
